@@ -760,7 +760,10 @@ pub fn plan_main(p: &dyn Property, file: &Path) -> i32 {
     let out = match out {
         Ok((stats, Ok(r))) => WorkerOut { stats, failure: r.err().map(|f| (Value::Null, f.signature, f.message)) },
         Ok((stats, Err(e))) => WorkerOut { stats, failure: Some((Value::Null, "harness/plan".into(), e)) },
-        Err(_) => WorkerOut { stats: Stats::default(), failure: Some((Value::Null, "harness/thread-panic".into(), "plan thread panicked".into())) },
+        Err(payload) => {
+            let msg = payload.downcast_ref::<&str>().map(|s| s.to_string()).or_else(|| payload.downcast_ref::<String>().cloned()).unwrap_or_else(|| "<non-string payload>".into());
+            WorkerOut { stats: Stats::default(), failure: Some((Value::Null, "harness/thread-panic".into(), format!("plan thread panicked: {msg}"))) }
+        }
     };
     println!("{}", serde_json::to_string(&out).unwrap());
     0
